@@ -37,7 +37,7 @@ func init() {
 			c.State = p
 			return err
 		},
-		Run:       c07Run,
+		Run: c07Run,
 		Probe: func(c *core.Ctx, f core.Finding) (bool, string) {
 			_, out, ok := formatGuard(c, f.Probe)
 			if !ok {
